@@ -152,21 +152,24 @@ MasterApply(f, v, tg) ==
        IF IsVar(ws) THEN MasterApply(f, v \o [k \in 1..Len(ws.recs) |-> [i |-> ws.i, o |-> ws.recs[k].o, v |-> ws.recs[k].v]], Tail(tg))
        ELSE MasterApply([f EXCEPT ![ws.i] = ws.recs[1].v], v, Tail(tg))
 
-Singles(r, tg) == {d \in Deviations : ApplyTG(r, tg, Deviations \ {d}) # ApplyTG(r, tg, Deviations)}
-Hits(r, tg) == IF ApplyTG(r, tg, {}) = ApplyTG(r, tg, Deviations) THEN {}
-               ELSE IF Singles(r, tg) # {} THEN Singles(r, tg) ELSE Deviations
+Singles(r, tg, D) == {d \in D : ApplyTG(r, tg, D \ {d}) # ApplyTG(r, tg, D)}
+Hits(r, tg, D) == IF ApplyTG(r, tg, {}) = ApplyTG(r, tg, D) THEN {}
+                  ELSE IF Singles(r, tg, D) # {} THEN Singles(r, tg, D) ELSE D
 
-\* the queued write sets are flushed as one transaction group, sent, and replayed by the replica
-Flush ==
+\* the queued write sets are flushed as one transaction group, sent, and replayed by the replica; D = the deviations
+\* the tree under test has (a subset of Deviations once some of the listed defects are repaired, see Repl_Script)
+FlushWith(D) ==
   /\ open # <<>>
   /\ mF' = MasterApply(mF, mV, open)[1] /\ mV' = MasterApply(mF, mV, open)[2]
   /\ replP' = ApplyTG(replP, open, {})
-  /\ replD' = ApplyTG(replD, open, Deviations)
-  /\ devHit' = devHit \cup Hits(replD, open)
+  /\ replD' = ApplyTG(replD, open, D)
+  /\ devHit' = devHit \cup Hits(replD, open, D)
   /\ open' = <<>>
   /\ hist' = Append(hist, [tg |-> open, mF |-> MasterF', mV |-> MasterV',
                            kF |-> ViewOf(replD'.F), kV |-> ViewOf(replD'.V), hit |-> devHit'])
   /\ UNCHANGED <<nrec, nset>>
+
+Flush == FlushWith(Deviations)
 
 Next == Flush \/ (\E i \in Ivs : AddF(i)) \/ (\E i \in Ivs, os \in OffSeqs : AddV(i, os))
 
